@@ -1,5 +1,6 @@
 import FormulaicVerif.Model.Parser
 import FormulaicVerif.Proofs.C14
+import FormulaicVerif.Proofs.C14General
 /-! # C14 — Any input string is parsed or rejected with the library's parsing error
 
 Property theorems only (helpers: `Proofs/C14.lean`). The model keeps every Python operation that
@@ -15,13 +16,15 @@ of every expression of the arithmetic fragment (unbounded nesting) is a term set
 error. Parsing terminates because every model function is total (structural recursion; the two
 fuelled functions `mergeVals`/`simplifyVal` are given fuel exceeding the value's depth).
 
-FULL (unproved): `no_internal_error : (∀ t e, env.norm t = .error e → e = .syntaxError) →
-parseTerms cfg env cs ≠ .error (.internal k)` for every string, all 8 flag subsets. Missing: the
-invariant that structural operators (`~`, `|`, `[ ~ ]`) only occur on the top spine of every AST the
-shunting-yard returns, which makes the `ValueError`/`TypeError` branches of `mergeVals` and
-`applyStructural` unreachable. It is FALSE of the current code for MULTISTAGE parsers
-(`[[a ~ b] ~ c]` raises NotImplementedError, pinned by the test-suite: known finding C14-F1); without
-MULTISTAGE it is exercised exhaustively on short strings by the correspondence. -/
+For parsers WITHOUT the experimental MULTISTAGE flag the unrestricted statement is proved
+(`no_internal_error`, `eval_no_internal`; helpers in `Proofs/C14General.lean`: a shape invariant of
+the shunting-yard loop — no structural operator ever sits below a non-structural one — via the
+context-acceptance rules of `~` and `|`).
+
+FULL (unproved, and FALSE of the current code): the same statement with MULTISTAGE enabled —
+`[[a ~ b] ~ c]` raises NotImplementedError, which the pinned test-suite demands (known finding
+C14-F1); with MULTISTAGE the tree invariant itself fails (`[a ~ b] + c` puts a structural operator
+below `+`). That configuration is covered by the correspondence and the outcome-class oracle only. -/
 namespace FormulaicVerif.Props.C14
 open FormulaicVerif FormulaicVerif.Model FormulaicVerif.Proofs.ShuntC
 
@@ -50,51 +53,27 @@ theorem disabled_never_used (tab : OpTable) (ts : List Tok) (a : Ast)
     (h : tokensToAst tab ts = .ok (some a)) : Proofs.C14.noDis a = true :=
   Proofs.C14.disabled_never_used tab ts a h
 
-private theorem sanitize_err (norm : List Char → Except PyErr (List Char)) :
-    ∀ (ts : List Tok) (e : PyErr), sanitizeTokens norm ts = .error e →
-      ∃ t ∈ ts, t.kind = some .python ∧ norm t.text = .error e := by
-  intro ts
-  induction ts with
-  | nil => intro e h; simp [sanitizeTokens] at h
-  | cons t ts ih =>
-    intro e h
-    unfold sanitizeTokens at h
-    simp only at h
-    by_cases hd : (t.text == ['.'] && t.kind != some .name) = true
-    · simp only [hd, if_true] at h
-      have hk : ¬ ((some TKind.operator : Option TKind) == some .python) = true := by decide
-      simp only [hk, Bool.false_eq_true, if_false] at h
-      cases hr : sanitizeTokens norm ts with
-      | error e' =>
-        rw [hr] at h; injection h with h; subst h
-        obtain ⟨t', ht', hp⟩ := ih _ hr
-        exact ⟨t', by simp [ht'], hp⟩
-      | ok r => rw [hr] at h; cases h
-    · simp only [hd, Bool.false_eq_true, if_false] at h
-      by_cases hp : (t.kind == some .python) = true
-      · simp only [hp, if_true] at h
-        cases hn : norm t.text with
-        | error e' =>
-          rw [hn] at h
-          simp only [Except.map] at h
-          injection h with h; subst h
-          exact ⟨t, by simp, by simpa using hp, hn⟩
-        | ok x =>
-          rw [hn] at h
-          simp only [Except.map] at h
-          cases hr : sanitizeTokens norm ts with
-          | error e' =>
-            rw [hr] at h; injection h with h; subst h
-            obtain ⟨t', ht', hp'⟩ := ih _ hr
-            exact ⟨t', by simp [ht'], hp'⟩
-          | ok r => rw [hr] at h; cases h
-      · simp only [hp, Bool.false_eq_true, if_false] at h
-        cases hr : sanitizeTokens norm ts with
-        | error e' =>
-          rw [hr] at h; injection h with h; subst h
-          obtain ⟨t', ht', hp'⟩ := ih _ hr
-          exact ⟨t', by simp [ht'], hp'⟩
-        | ok r => rw [hr] at h; cases h
+/-- C14.5  **No internal exception escapes**, for every input string, both intercept settings and every
+TWOSIDED/MULTIPART subset (MULTISTAGE off), provided the Python normaliser raises nothing but
+SyntaxError: `parseTerms` returns a term structure, the parsing error, or the SyntaxError of a
+fragment — never `StopIteration`, `TypeError`, `ValueError`, `AttributeError`, `KeyError`, … -/
+theorem no_internal_error (cfg : ParseCfg) (hms : cfg.multistage = false) (env : PyEnv)
+    (hnorm : ∀ t x, env.norm t = .error x → x = .syntaxError) (cs : List CharInfo) :
+    ∀ k, parseTerms cfg env cs ≠ .error (.internal k) :=
+  Proofs.C14General.parseTerms_no_internal cfg hms env hnorm cs
+
+/-- C14.5'  the evaluation half on its own, stated on the table regenerated from the live resolver -/
+theorem eval_no_internal (twosided multipart : Bool) (dot : DotCtx) (ts : List Tok) (a : Ast)
+    (h : tokensToAst (Gen.defaultTable twosided multipart false) ts = .ok (some a)) :
+    ∀ k, evalAst dot a ≠ .error (.internal k) :=
+  Proofs.C14General.eval_no_internal_live twosided multipart dot ts a h
+
+/-- the MULTISTAGE exclusion is not decoration: with the flag on, the model (like the code, finding
+C14-F1) returns an internal NotImplementedError for a structured left-hand side -/
+example : applyStructural
+      { symbol := "~", arity := 2, prec := -100, assoc := .none, fixity := .infix, structural := true,
+        disabled := false, ctx := .lastIsSquare }
+      [.struct [], .set []] = .error (.internal "NotImplementedError") := rfl
 
 /-- C14.3  Tokenisation and token rewriting fail only with the parsing error, or with Python's
 SyntaxError, and the latter only when a Python fragment found in the string is itself rejected by
@@ -103,27 +82,7 @@ theorem pySyntax_only_from_fragment (cfg : ParseCfg) (env : PyEnv) (cs : List Ch
     (hnorm : ∀ t x, env.norm t = .error x → x = .syntaxError)
     (h : getTokens cfg env cs = .error e) :
     (∃ w, e = .syntax w) ∨
-    (e = .pySyntax ∧ ∃ t ∈ (tokenizeStream cs).1, t.kind = some .python ∧ env.norm t.text = .error .syntaxError) := by
-  unfold getTokens at h
-  simp only at h
-  cases hs : sanitizeTokens env.norm (tokenizeStream cs).1 with
-  | error x =>
-    rw [hs] at h
-    injection h with h
-    obtain ⟨t, ht, hk, hn⟩ := sanitize_err env.norm _ _ hs
-    have hx := hnorm _ _ hn
-    subst hx
-    right
-    exact ⟨by rw [← h]; rfl, t, ht, hk, hn⟩
-  | ok ts =>
-    rw [hs] at h
-    simp only at h
-    cases hl : (tokenizeStream cs).2 with
-    | none => rw [hl] at h; cases h
-    | some le =>
-      rw [hl] at h
-      injection h with h
-      left
-      cases le <;> exact ⟨_, h.symm⟩
+    (e = .pySyntax ∧ ∃ t ∈ (tokenizeStream cs).1, t.kind = some .python ∧ env.norm t.text = .error .syntaxError) :=
+  Proofs.C14.pySyntax_only_from_fragment cfg env cs e hnorm h
 
 end FormulaicVerif.Props.C14
